@@ -463,6 +463,9 @@ def run_case(draws, prop, tier="quick"):
                         res.count("l2:" + k2, v2)
                 if out.loop_info:
                     res.count("stuck_tasks", out.loop_info["stuck_tasks"])
+                    if out.status == "ok":
+                        res.count("probe:tasks_left_pending_after_a_result",
+                                  out.loop_info["stuck_tasks"])
                     res.count("loop_unhandled", out.loop_info["unhandled"])
                     res.count("executor_jobs",
                               out.loop_info["executor_jobs"])
@@ -775,8 +778,10 @@ REAL_VS_STUB = {
         "asyncio event-loop core: SimLoop (virtual clock, no selector, "
         "run_in_executor jobs become kernel items)",
         "ThreadPoolExecutor behind ThreadPoolRuntime._inner: SimExecutor "
-        "(single-threaded completion-order simulation); thorough tier adds "
-        "ThreadSim (real threads, one runnable at a time)",
+        "(single-threaded completion-order simulation, bounded pool model) "
+        "and ThreadSim (real threads, one runnable at a time, line-granular "
+        "pre-emption) for a share of the requests (all of them in the "
+        "thorough tier)",
         "wall clock in py_gql.tracers (virtual clock + skew table)",
         "resolvers, type resolvers, middlewares, instrumentations "
         "(synthetic, generated per case)",
@@ -828,7 +833,8 @@ def evidence_meta(prop):
             "before it was submitted, callbacks run on the completing or "
             "attaching thread",
             "L1 explores completion orders at callback granularity; "
-            "line-level interleavings of two callbacks are explored by the "
-            "thorough tier's ThreadSim only",
+            "line-level interleavings of two callbacks are explored by "
+            "ThreadSim (L2); pre-emption inside one bytecode line is not "
+            "simulated",
         ],
     }
